@@ -105,7 +105,8 @@ Apply(op, a, dst) ==
   /\ hp' = hp2
   /\ pool' = pool2
   /\ hist' = Append(hist, [op |-> op, a |-> a, dst |-> IF store THEN dst ELSE 0, exp |-> exp,
-                           state |-> [k \in 1..N |-> Render(pool2[k], hp2)]])
+                           state |-> [k \in 1..N |-> Render(pool2[k], hp2)],
+                           share |-> ShareMatrix(pool2, N, hp2)])
 
 Init ==
   /\ variant \in {1, 2, 3}
